@@ -91,6 +91,8 @@ def norm_model(line, binary):
                 out.append('opts %s %s %s' % (p[1], p[2], vb))
             elif p[0] in ('dual', 'primal'):
                 out.append(p[0] + ' ' + conv_vec(p[1:5], 'd', False))
+            elif p[0] == 'cast':
+                conv_val(p[1], 'i')      # (int)x evaluated but not delivered: only the range matters
             elif p[0] == 'objno':
                 out.append('objno %s %s' % (conv_val(p[1], 'i'), conv_val(p[2], 'i')))
             elif p[0] == 'suf':
